@@ -1,7 +1,7 @@
 (* extraction of the MemBuf models (C08) — ExtrOcamlBasic only *)
 Require Extraction.
 Require Import ExtrOcamlBasic.
-From Verif Require Import MemBuf.Model MemBuf.Art MemBuf.Batched MemBuf.ProofsBatchedL0 MemBuf.BatchedUse.
+From Verif Require Import MemBuf.Model MemBuf.Art MemBuf.Batched MemBuf.ProofsBatchedL0 MemBuf.BatchedUse MemBuf.FlagPreds.
 Extraction Language OCaml.
 Extraction "membuf_model.ml"
-  Z.of_N init0 init1 step0 step1 step01 flag_op_of_index reg1 wseq1 sseq1 stages1 log1 lex_cmp is_mutator unlimited insert_root lookup keys_of_tree nchildren kind_of seek_ge keys1 batched snapshot0 bopen1 bnext1.
+  Z.of_N init0 init1 step0 step1 step01 flag_op_of_index reg1 wseq1 sseq1 stages1 log1 lex_cmp is_mutator unlimited insert_root lookup keys_of_tree nchildren kind_of seek_ge keys1 batched snapshot0 bopen1 bnext1 preds_word.
